@@ -40,15 +40,15 @@ func TestMain(m *testing.M) {
 }
 
 type Case struct {
-	Text     string `json:"text"`
+	Text     pbt.Txt `json:"text"`
 	Expect   string `json:"expect,omitempty"`
 	ExpectNC string `json:"expect_nc,omitempty"`
 }
 
-func check(c Case) (rt.Result, error) { return rt.RoundTrip(c.Text, c.Expect, c.ExpectNC) }
+func check(c Case) (rt.Result, error) { return rt.RoundTrip(string(c.Text), c.Expect, c.ExpectNC) }
 
 func caseOf(stmts []*gen.Node, o gen.PrintOptions) Case {
-	return Case{Text: gen.Print(stmts, o), Expect: gen.Expect(stmts, false), ExpectNC: gen.Expect(stmts, true)}
+	return Case{Text: pbt.Txt(gen.Print(stmts, o)), Expect: gen.Expect(stmts, false), ExpectNC: gen.Expect(stmts, true)}
 }
 
 // ---- known findings: classes excluded by construction while listed in KNOWN_FINDINGS.txt -----------------
@@ -76,7 +76,7 @@ func TestPairs(t *testing.T) {
 				pbt.Fail(t, "pair", c, "context %s, child %s: %v", ctx.Name, ch.Name, err)
 			}
 			pbt.CaseExact(true, "pair")
-			pbt.SampleEvery("pair", idx, func() any { return c.Text })
+			pbt.SampleEvery("pair", idx, func() any { return string(c.Text) })
 		}
 	}
 }
@@ -108,7 +108,7 @@ func TestAdjacency(t *testing.T) {
 					pbt.Fail(t, "adjacency", c, "statements %s then %s (in block: %v): %v", a.Name, b.Name, inBlock, err)
 				}
 				pbt.CaseExact(true, "adjacency")
-				pbt.SampleEvery("adjacency", idx, func() any { return c.Text })
+				pbt.SampleEvery("adjacency", idx, func() any { return string(c.Text) })
 			}
 		}
 	}
@@ -157,8 +157,8 @@ func TestGenerated(t *testing.T) {
 			lbl = "generated:skipped-operand-comment"
 			nt = false
 		}
-		pbt.Case(nt, c.Text, lbl)
-		pbt.Sample("generated", c.Text)
+		pbt.Case(nt, string(c.Text), lbl)
+		pbt.Sample("generated", string(c.Text))
 	})
 }
 
@@ -260,7 +260,7 @@ func TestExamples(t *testing.T) {
 			pbt.Excluded(ex)
 			continue
 		}
-		c := Case{Text: src}
+		c := Case{Text: pbt.Txt(src)}
 		res, err := check(c)
 		if err != nil {
 			pbt.Fail(t, "example", c, "%v", err)
@@ -278,8 +278,8 @@ func FuzzRoundTrip(f *testing.F) {
 		if len(in) > 3000 || excludedText(in) != "" {
 			return
 		}
-		if _, err := check(Case{Text: in}); err != nil {
-			pbt.Fail(t, "fuzz", Case{Text: in}, "%v", err)
+		if _, err := check(Case{Text: pbt.Txt(in)}); err != nil {
+			pbt.Fail(t, "fuzz", Case{Text: pbt.Txt(in)}, "%v", err)
 		}
 	})
 }
